@@ -84,6 +84,9 @@ def seg_roles(crate):
 
 
 def P(I, n):
+    al = getattr(I, "param_alias", None)
+    if al and n in al:
+        return al[n]
     return ("param", n, I.names.get(n))
 
 
@@ -138,10 +141,62 @@ def norm_mid(t, a, b):
 _A = [None]
 
 
+class Loopified:
+    """View of the analysis of a descent function whose TAIL call was turned into a loop
+    (`loop { ..; l = ..; i = 2*i+2; vl = m+1 }`): every back edge is presented as a virtual recursive call
+    with the new parameter values as arguments and its result returned unchanged, and the loop-carried
+    parameters are presented as the function's parameters (they stand for the values of an arbitrary round,
+    the first included).  All descent rules then read the loop as the recursion it replaces."""
+
+    def __init__(self, I, head, body):
+        from ..absint import Event
+
+        self._I = I
+        self.head = head
+        u = I.uid(head)
+        locs, _mem = I.loop_mod[head]
+        self.param_alias = {n: ("phi", u, n) for n in range(1, body.arg_count + 1) if n in locs}
+        finals = list(I.final_states)
+        for k, st in enumerate(I.backedge_states.get(head, [])):
+            ns = st.fork()
+            args = []
+            tys = []
+            for n in range(1, body.arg_count + 1):
+                v = ns.env.get(n)
+                ty = body.locals[n]["ty"]
+                tys.append(ty)
+                if ty.startswith("&") and isinstance(v, tuple) and v and v[0] == "param":
+                    v = ("ref", ("deref", v))
+                args.append(v)
+            res = ("vret", u, k)
+            ev = Event("call", head, callee=body.path, fn={"def": body.key, "path": body.path, "name": body.name}, args=tuple(args), res=res, state=(ns.facts, ns.mem, ns.path), extra={"pure": False, "handled": False, "name": body.name, "trait": None, "argvals": [None] * len(args), "argtys": tys, "uid": ("v", head, k), "virtual": True, "in": None, "dest": None, "gpath": body.path})
+            ns.add_event(ev)
+            ns.env = dict(ns.env)
+            ns.env[0] = res
+            finals.append(ns)
+        self.final_states = finals
+        self.backedge_states = {}
+
+    def __getattr__(self, k):
+        return getattr(self._I, k)
+
+    def all_end_states(self):
+        return self.final_states
+
+
+_loopified = {}
+
+
 def analyse(body):
     """term-flow analysis with the crate's private non-role helper functions (children(i), mid(l, r), ...)
     inlined into their callers"""
-    return (_A[0] or util.analyse)(body)
+    I = (_A[0] or util.analyse)(body)
+    if body.name in DESCENTS and len(I.loops) == 1 and I.backedge_states:
+        k = id(I)
+        if k not in _loopified:
+            _loopified[k] = Loopified(I, list(I.loops)[0], body)
+        return _loopified[k]
+    return I
 
 
 def rule_push_before_descend(col, R, rid, names, sfx=""):
